@@ -1,5 +1,5 @@
 """Registry: property id -> check function(ctx) -> exit code."""
-from checks import tracker, sshdfam
+from checks import tracker, sshdfam, sshdproc
 
 
 def _tracker(prop):
@@ -23,3 +23,11 @@ def _sshd(prop):
 
 for _p in ("C06", "C07", "C11", "C17", "C19"):
     REGISTRY[_p] = _sshd(_p)
+
+
+def _c05(ctx):
+    cov = sshdproc.run(ctx)
+    return ctx.finish("model_checking", cov, sshdproc.ASSUME)
+
+
+REGISTRY["C05"] = _c05
